@@ -338,7 +338,7 @@ def rnd_scope_tree(rng, desc, files, p_inc=0.5, depth=0):
                 pairs.append((k, rnd_plain(rng, 3)))
         elif kind == "int":
             if rng.random() < 0.5:
-                pairs.append((k, I(rng.randint(-9, 999)) if rng.random() < 0.92 else rng.choice([S("bad"), {"t": "list", "l": [I(1)]}, D([])])))
+                pairs.append((k, I(rng.randint(-9, 999)) if rng.random() < 0.96 else rng.choice([S("bad"), {"t": "list", "l": [I(1)]}, D([])])))
         elif kind == "include":
             if rng.random() < p_inc:
                 pairs.append((k, NONE if rng.random() < 0.06 else rnd_name(rng, text(f["startdir"]), files)))
@@ -346,14 +346,15 @@ def rnd_scope_tree(rng, desc, files, p_inc=0.5, depth=0):
             r = rng.random()
             if r < 0.55:
                 pairs.append((k, rnd_scope_tree(rng, f, files, p_inc, depth + 1)))
-            elif r < 0.62:
+            elif r < 0.59:
                 pairs.append((k, rng.choice([D([]), NONE, I(5), I(0), S("x"), {"t": "list", "l": []}, {"t": "list", "l": [I(1)]}])))
-    if rng.random() < 0.03:
+    if rng.random() < 0.015:
         pairs.append(("zz", I(1)))
     return D(pairs)
 
 
-def rnd_load_case(rng, fmt):
+def rnd_world(rng, fmt):
+    """A random schema and a random file system for it."""
     desc = rnd_schema(rng)
     scopes = list(scopes_of(desc))
     names = ["f%d" % i for i in range(1, 7)]
@@ -372,6 +373,10 @@ def rnd_load_case(rng, fmt):
             fs.append([chars(p), {"k": "file", "v": rng.choice([{"t": "list", "l": [I(1)]}, I(3), NONE, S("s")])}])
         else:
             fs.append([chars(p), {"k": "file", "v": D([])}])
+    return desc, fs, files
+
+
+def rnd_load_case(rng, fmt, desc, fs, files):
     pre = rnd_scope_tree(rng, desc, files, p_inc=0.0) if rng.random() < 0.6 else D([])
     pre = strip_bad(pre, desc)
     r = rng.random()
@@ -404,43 +409,44 @@ def strip_bad(tree, desc):
     return {"t": "dict", "kv": kv}
 
 
-def drive_loads(cinco, rng, n, stats):
+def drive_loads(cinco, rng, n, stats, per_world=4):
     base = tlc.scratch("cinco-c18d-")
     cases = []
     tries = 0
-    while len(cases) < n and tries < n * 3:
+    while len(cases) < n and tries < n:
         tries += 1
         fmt = FORMATS[tries % len(FORMATS)]
-        case = rnd_load_case(rng, fmt)
-        root = os.path.join(base, "w%d" % tries)
-        world = incworld.FsWorld(case["fs"], fmt, root)
+        desc, fs, files = rnd_world(rng, fmt)
+        world = incworld.FsWorld(fs, fmt, os.path.join(base, "w%d" % tries))
         try:
             if world.unrepresentable:
                 continue
-            try:
-                data = document_bytes(fmt, case["doc"], root)
-            except RuntimeError:
-                data = None
-            if data is None:
-                continue
-            schema = incworld.build_schema(cinco, case["S"], root)
-            try:
-                real = incworld.run_load(cinco, world, schema, case["S"], case["pre"], data, via="load" if tries % 2 else "loads")
-            except codec.Unrepresentable:
-                continue
-            case.update({"out": real.out, "cfg0": real.before, "cfg": real.after, "repl": real.repl, "exc": real.exc})
-            cases.append(case)
-            stats["by_format"][fmt] = stats["by_format"].get(fmt, 0) + 1
-            stats["by_out"][real.out] = stats["by_out"].get(real.out, 0) + 1
+            schema = incworld.build_schema(cinco, desc, world.root)
+            for j in range(per_world):
+                case = rnd_load_case(rng, fmt, desc, fs, files)
+                try:
+                    data = document_bytes(fmt, case["doc"], world.root)
+                except RuntimeError:
+                    data = None
+                if data is None:
+                    continue
+                try:
+                    real = incworld.run_load(cinco, world, schema, desc, case["pre"], data, via="load" if j == 0 else "loads")
+                except codec.Unrepresentable:
+                    continue
+                case.update({"out": real.out, "cfg0": real.before, "cfg": real.after, "repl": real.repl, "exc": real.exc})
+                cases.append(case)
+                stats["by_format"][fmt] = stats["by_format"].get(fmt, 0) + 1
+                stats["by_out"][real.out] = stats["by_out"].get(real.out, 0) + 1
         finally:
             world.remove()
-    return cases
+    return cases[:n]
 
 
 NOT_LOGGED = ("exc", "raised", "label", "via", "fmt")  # harness bookkeeping, not part of the observation
 
 
-def validate_cases(cases, batch=2500):
+def validate_cases(cases, batch=4000):
     """TLC judges every logged case (Trace_Include.tla); returns ([(case, verdict)], tlc states)."""
     verdicts = []
     states = 0
@@ -598,7 +604,7 @@ def run(tier, seed):
             fmts = [FORMATS[idx % 5], FORMATS[(idx + 2) % 5]] + ([FORMATS[(idx + 4) % 5]] if big else [])
             eq0 = stats["equivalence_pairs"]
             for j, fmt in enumerate(fmts):
-                bad = check_load_case(bench, case, fmt, "load" if (idx + j) % 2 else "loads", stats, with_reference=(stats["equivalence_pairs"] == eq0))
+                bad = check_load_case(bench, case, fmt, "load" if (idx + j) % 4 == 0 else "loads", stats, with_reference=(stats["equivalence_pairs"] == eq0))
                 for sig, detail, extra in bad or []:
                     n_viol["load"] += 1
                     if n_viol["load"] <= 25:
